@@ -1,4 +1,5 @@
 import PwVerif.Proofs.Edit
+import PwVerif.Proofs.BridgeC14C13
 /-!
 # C14 — Graph edits are all-or-nothing and a replacement inherits the old node's place
 
@@ -18,11 +19,16 @@ the tree as it is now (`fix: 02da358`, the ownership pre-check), `Cfg.repaired` 
 `fixes/C14-*.patch`.
 
 * all-or-nothing: `C14_replace_atomic`, `C14_copy_io_atomic`, `C14_copy_chan_atomic`,
-  `C14_dag_atomic` are the full statements for the repaired variant; for the current tree each
-  is *false* (`…_witness`, one machine-checked counterexample per defect) and holds under a named
-  hypothesis (`…_partial`).  A workflow-level replacement whose IO cannot be rebuilt afterwards
-  is not all-or-nothing even with all repairs (`C14_wf_revert_witness`, no repair proposed);
-  `C14_wf_replace_atomic` is the statement under `RebuildSucceeds`.
+  `C14_dag_atomic` are the full statements for the repaired variant; for the tree in which the
+  findings were recorded (`Cfg.current`) each is *false* (`…_witness`, one machine-checked
+  counterexample per defect) and holds under a named hypothesis (`…_partial`).  `Cfg.head` is
+  the tree as it is now (the five repairs of round 2 are in): `C14_head_replace_atomic`,
+  `C14_head_inherits`.  A workflow-level replacement whose IO cannot be rebuilt afterwards is not
+  all-or-nothing in `Cfg.head` (`C14_wf_revert_witness`); with the dry run of the IO keys
+  (`wfDryRun`, `fixes/C14-workflow-io-dry-run.patch`) it is: `C14_wf_replace_atomic` (no
+  `RebuildSucceeds` any more; the dry run is sound: `C14_wf_io_survives`).
+* composition: `C14_preserves_C12_C13` — after a replacement, accepted or refused, the connection
+  graph satisfies C12's invariant and the ownership tree C13's.
 * inheritance: `C14_inherits` (repaired): same positions in every list; `C14_inherits_order_witness`
   (current tree: priority reversed), `C14_inherits_partial` (current tree: everything but the
   order).
@@ -105,12 +111,32 @@ theorem C14_replace_atomic (fuel : Nat) (w : W) (p old new : Nat) (hinv : Inv w.
     (replace (Cfg.repaired fuel) w p old new).1 = w :=
   replace_atomic fuel w p old new hinv (fun _ _ h => absurd h hk) herr
 
-/-- (a) for workflows too, as long as the IO can be rebuilt afterwards -/
+/-- well-formedness of the tables around a workflow-level replacement: channel tables agree with
+ownership (`Tables`), the replaced node is not connected to itself, the other children's channels
+are their own -/
+def WfWellFormed (w : W) (p old new : Nat) : Prop :=
+  w.t.kind p = .workflow → Tables w old new ∧ NoSelfConn w.g old ∧ SiblingsApart w p old new
+
+/-- (a) for workflows too, with the dry run of the IO keys: every graph, child, candidate and
+renaming map — no hypothesis on the rebuild any more -/
 theorem C14_wf_replace_atomic (fuel : Nat) (w : W) (p old new : Nat) (hinv : Inv w.g)
-    (hio : RebuildSucceeds (Cfg.repaired fuel) w p old new)
-    (herr : (replace (Cfg.repaired fuel) w p old new).2 ≠ .ok) :
+    (hwf : WfWellFormed w p old new) (herr : (replace (Cfg.repaired fuel) w p old new).2 ≠ .ok) :
     (replace (Cfg.repaired fuel) w p old new).1 = w :=
-  replace_atomic fuel w p old new hinv hio herr
+  replace_atomic_full (Cfg.repaired fuel) rfl rfl rfl rfl rfl w p old new hinv hwf herr
+
+/-- the dry run is sound: whatever it lets pass leaves a workflow whose IO can be built -/
+theorem C14_wf_io_survives (fuel : Nat) (w : W) (p old new : Nat) (w' : W) (hk : w.t.kind p = .workflow)
+    (h : compReplace (Cfg.repaired fuel) w p old new = (w', .ok)) (hinv : Inv w.g) (htab : Tables w old new)
+    (hself : NoSelfConn w.g old) (hsib : SiblingsApart w p old new) : wfIoOk w' p = true :=
+  wf_rebuild_ok (Cfg.repaired fuel) rfl rfl rfl rfl rfl w p old new w' hk h hinv htab hself hsib
+
+/-- (a) the tree as it is now (`Cfg.head`), any composite that is not a workflow -/
+theorem C14_head_replace_atomic (fuel : Nat) (w : W) (p old new : Nat) (hinv : Inv w.g)
+    (hk : w.t.kind p ≠ .workflow) (herr : (replace (Cfg.head fuel) w p old new).2 ≠ .ok) :
+    (replace (Cfg.head fuel) w p old new).1 = w := by
+  unfold replace at herr ⊢
+  rw [if_neg hk] at herr ⊢
+  exact compReplace_atomic' (Cfg.head fuel) rfl rfl rfl w p old new hinv herr
 
 /-- (c1) `copy_io` as `replace_child` and every default call use it -/
 theorem C14_copy_io_atomic (fuel : Nat) : CopyIoStatement (Cfg.repaired fuel) :=
@@ -148,6 +174,92 @@ theorem C14_inherits (fuel : Nat) : InheritsStatement (Cfg.repaired fuel) := by
   refine ⟨⟨h1, h2, h3⟩, ?_, h5⟩
   rw [h4]
   exact ⟨f1, f3, f5, f8, f4, f6, fun x hxo hxn => ⟨(f10 x hxo hxn).1, (f10 x hxo hxn).2, f7 x hxo hxn, f9 x hxo hxn⟩, f11⟩
+
+/-- (a) by label (`replace_child("b", new)`): an unknown label is a `KeyError` that changes nothing,
+a known one is the replacement of the child it names -/
+theorem C14_replace_by_label_atomic (fuel : Nat) (w : W) (p : Nat) (l : Tree.Str) (new : Nat) (hinv : Inv w.g)
+    (hwf : ∀ old, Tree.lookupKey (w.t.children p) l = some old → WfWellFormed w p old new)
+    (herr : (replaceLabel (Cfg.repaired fuel) w p l new).2 ≠ .ok) :
+    (replaceLabel (Cfg.repaired fuel) w p l new).1 = w := by
+  unfold replaceLabel at herr ⊢
+  cases hl : Tree.lookupKey (w.t.children p) l with
+  | none => rfl
+  | some old =>
+    simp only [hl] at herr ⊢
+    exact C14_wf_replace_atomic fuel w p old new hinv (hwf old hl) herr
+
+/-- C05's side of the edit: an accepted replacement drops the cache of the composite and of the
+replacement and no other (a refused one drops none: it changes nothing at all) -/
+theorem C14_caches_dropped (fuel : Nat) (w : W) (p old new : Nat) (w' : W)
+    (h : compReplace (Cfg.head fuel) w p old new = (w', .ok)) (hinv : Inv w.g) (htab : Tables w old new)
+    (hself : NoSelfConn w.g old) :
+    w'.cached p = false ∧ w'.cached new = false ∧ ∀ n, n ≠ p → n ≠ new → w'.cached n = w.cached n := by
+  obtain ⟨_, _, _, _, _, hc, _⟩ :=
+    compReplace_inherits' (Cfg.head fuel) rfl rfl rfl rfl w p old new w' h hinv htab hself
+  rw [hc]
+  refine ⟨?_, by simp [updF], fun n h1 h2 => by simp [updF, h1, h2]⟩
+  by_cases hpn : p = new <;> simp [updF, hpn]
+
+/-- (b) the tree as it is now -/
+theorem C14_head_inherits (fuel : Nat) : InheritsStatement (Cfg.head fuel) := by
+  intro w p old new w' h hinv htab hself hns
+  obtain ⟨h1, h2, h3, h4, h5, _⟩ :=
+    compReplace_inherits' (Cfg.head fuel) rfl rfl rfl rfl w p old new w' h hinv htab hself
+  obtain ⟨hpo, hpn, _⟩ := compReplace_ok_shape' (Cfg.head fuel) rfl rfl rfl rfl w p old new w' h
+  obtain ⟨f1, f2, f3, f4, f5, f6, f7, f8, f9, f10, f11⟩ := tAfter_facts w.t p old new hpo hpn hns
+  refine ⟨⟨h1, h2, h3⟩, ?_, h5⟩
+  rw [h4]
+  exact ⟨f1, f3, f5, f8, f4, f6, fun x hxo hxn => ⟨(f10 x hxo hxn).1, (f10 x hxo hxn).2, f7 x hxo hxn, f9 x hxo hxn⟩, f11⟩
+
+/-- COMPOSITION with C12 and C13 (every repair in place): whatever `replace_child` does — accept or
+refuse —, the connection graph afterwards is mutual, well-typed and duplicate-free (`Conn.Inv`, C12)
+and the ownership tree satisfies C13's invariant (`Tree.WFTree`: one parent, both sides agree,
+unique labels, no cycles, workflows are roots, starting nodes are children).  The seat assigns
+connection lists directly: that it keeps C12's invariant is `seat_inv` (the seat is the
+conjugation of the graph with the involution swapping replaced channels and stand-ins). -/
+theorem C14_preserves_C12_C13 (fuel : Nat) (w : W) (p old new : Nat) (hinv : Inv w.g) (hwft : Tree.WFTree w.t)
+    (htab : Tables w old new) (hself : NoSelfConn w.g old) (hm : StandInsOk w.g (standIns w new old))
+    (hsib : SiblingsApart w p old new) :
+    Inv (replace (Cfg.repaired fuel) w p old new).1.g ∧ Tree.WFTree (replace (Cfg.repaired fuel) w p old new).1.t := by
+  by_cases herr : (replace (Cfg.repaired fuel) w p old new).2 = .ok
+  · -- accepted: the composite-level result, seated and adopted
+    have key : ∀ w', compReplace (Cfg.repaired fuel) w p old new = (w', .ok) → Inv w'.g ∧ Tree.WFTree w'.t := by
+      intro w' h
+      obtain ⟨_, _, _, ht, _, _, hg, hctx⟩ :=
+        compReplace_inherits' (Cfg.repaired fuel) rfl rfl rfl rfl w p old new w' h hinv htab hself
+      obtain ⟨hpo, hpn, _, had, _⟩ := compReplace_ok_shape' (Cfg.repaired fuel) rfl rfl rfl rfl w p old new w' h
+      have hst : standIns { w with g := (copyPairs true w.g true (ioPairs w new old) []).1, val := w'.val } new old
+          = standIns w new old :=
+        standIns_congr w _ _ new old (fun oc hoc => hctx.ci.oldSame oc ((htab.oldOwn oc).mp hoc))
+      refine ⟨?_, ?_⟩
+      · rw [hg]
+        exact seat_inv hctx hinv (by rw [hst]; exact hm)
+      · rw [ht]
+        exact tAfter_wf fuel w.t p old new hwft hpo hpn had
+    unfold replace at herr ⊢
+    split
+    · rename_i hk
+      rw [if_pos hk] at herr
+      have hio := fun w1 h => wf_rebuild_ok (Cfg.repaired fuel) rfl rfl rfl rfl rfl w p old new w1 hk h hinv htab
+        hself hsib
+      generalize hr : compReplace (Cfg.repaired fuel) w p old new = r at herr hio key ⊢
+      obtain ⟨w1, e⟩ := r
+      cases e with
+      | ok =>
+        simp only [hio w1 rfl, if_true]
+        exact key w1 rfl
+      | _ => simp at herr
+    · rename_i hk
+      rw [if_neg hk] at herr
+      generalize hr : compReplace (Cfg.repaired fuel) w p old new = r at herr key ⊢
+      obtain ⟨w1, e⟩ := r
+      simp only at herr
+      subst herr
+      exact key w1 rfl
+  · -- refused: nothing changed
+    rw [replace_atomic_full (Cfg.repaired fuel) rfl rfl rfl rfl rfl w p old new hinv
+      (fun _ => ⟨htab, hself, hsib⟩) herr]
+    exact ⟨hinv, hwft⟩
 
 /-! ## theorems: the tree as it is (partial statements under named hypotheses) -/
 
@@ -237,7 +349,7 @@ def mkTree (kinds : List (Nat × Tree.Kind)) (labels : List (Nat × String)) (ki
 def mkW (t : Tree.Tree) (g : G) : W :=
   { t, g, io := exIO, clab := exLab, val := fun _ => none, recv := fun _ => none,
     admits := fun _ _ => true, linkOk := fun _ _ => true, locked := fun _ => false,
-    imap := fun _ => none, omap := fun _ => none }
+    imap := fun _ => none, omap := fun _ => none, cached := fun _ => false }
 
 def cur : Cfg := Cfg.current 64
 def rep : Cfg := Cfg.repaired 64
@@ -401,14 +513,14 @@ def w7 : W := { mkW t7 g7 with
   imap := fun p => if p = 0 then some [("b__z", .name "a__x")] else none }
 theorem w7_inv : Inv w7.g := run_inv _ _ (exG0_inv _)
 
-/-- KF-C14-7, with or without the repairs: the replacement succeeds at the composite level, the IO
+/-- KF-C14-7, in the tree as it is now and in the one before: the replacement succeeds at the composite level, the IO
 of the workflow cannot be built any more (two channels under the key `a__x`), the revert needs
 that very IO and raises again: the replacement stays in -/
-theorem C14_wf_revert_witness : ¬ ReplaceStatement rep ∧ ¬ ReplaceStatement cur := by
+theorem C14_wf_revert_witness : ¬ ReplaceStatement (Cfg.head 64) ∧ ¬ ReplaceStatement cur := by
   constructor
   · intro hS
     have := hS w7 0 2 4 w7_inv (by decide)
-    have h1 : (replace rep w7 0 2 4).1.t.parent 4 = some 0 := by decide
+    have h1 : (replace (Cfg.head 64) w7 0 2 4).1.t.parent 4 = some 0 := by decide
     rw [this] at h1
     exact absurd h1 (by decide)
   · intro hS
@@ -418,8 +530,83 @@ theorem C14_wf_revert_witness : ¬ ReplaceStatement rep ∧ ¬ ReplaceStatement 
     exact absurd h1 (by decide)
 
 example : (replace cur w7 0 2 4).2 = .typeError ∧ (replace cur w7 0 2 4).1.g.conns 30 = [22, 42, 12] ∧
-    (replace rep w7 0 2 4).2 = .typeError ∧ (replace rep w7 0 2 4).1.g.conns 30 = [42, 12] ∧
+    (replace (Cfg.head 64) w7 0 2 4).2 = .typeError ∧ (replace (Cfg.head 64) w7 0 2 4).1.g.conns 30 = [42, 12] ∧
     wfIoOk w7 0 = true := by decide
+
+/-- with the dry run the same replacement is refused before anything changes -/
+example : (replace rep w7 0 2 4).2 = .valueError ∧ (replace rep w7 0 2 4).1.g.conns 30 = [22, 12] ∧
+    (replace rep w7 0 2 4).1.t.parent 4 = none ∧ (replace rep w7 0 2 4).1.t.parent 2 = some 0 := by decide
+
+/-! ### composition with C12 / C13: a concrete world in which every hypothesis holds -/
+
+/-- workflow 0 built by C13's own operations: children a=1, b=2, c=3; 5 is an orphan -/
+def t9 : Tree.Tree := Tree.run (Tree.Cfg.repaired 64)
+  (Tree.empty (fun n => if n = 0 then .workflow else .leaf) (fun _ => true) (fun _ => []))
+  [.new 0 "w".toList none, .new 1 "a".toList (some 0), .new 2 "b".toList (some 0), .new 3 "c".toList (some 0),
+   .new 5 "r".toList none]
+theorem t9_wf : Tree.WFTree t9 :=
+  Tree.run_wf (Tree.repaired_repaired 64) _ _ (Tree.wf_empty _ _ _) (by decide)
+def w9 : W := mkW t9 g7
+theorem w9_inv : Inv w9.g := run_inv _ _ (exG0_inv _)
+
+theorem ex_tables (w : W) (hio : w.io = exIO) (hown : w.g.owner = exOwner) (old new : Nat) (ho : old < 100)
+    (hn : new < 100) (hk : w.t.kind old ≠ .workflow)
+    (hinj : ∀ e e', e ∈ standIns w new old → e' ∈ standIns w new old → e.2 = e'.2 → e.1 = e'.1) :
+    Tables w old new := by
+  refine ⟨?_, ?_, hk, hinj⟩
+  · intro c
+    rw [hio, hown]
+    simp only [exIO, NodeIO.all, List.mem_append, List.mem_cons, List.not_mem_nil, or_false]
+    unfold exOwner
+    split <;> omega
+  · intro c
+    rw [hio, hown]
+    simp only [exIO, NodeIO.all, List.mem_append, List.mem_cons, List.not_mem_nil, or_false]
+    unfold exOwner
+    split <;> omega
+
+theorem w9_standIns : standIns w9 5 2 = [(22, 52)] := by decide
+
+/-- `C14_preserves_C12_C13`, `C14_wf_replace_atomic` and `C14_wf_io_survives` apply to it: after
+`w.replace_child(b, r)` the graph satisfies C12's invariant and the tree C13's -/
+example : Inv (replace rep w9 0 2 5).1.g ∧ Tree.WFTree (replace rep w9 0 2 5).1.t ∧
+    (replace rep w9 0 2 5).2 = .ok ∧ (replace rep w9 0 2 5).1.g.conns 30 = [52, 12] ∧ WfWellFormed w9 0 2 5 := by
+  have htab : Tables w9 2 5 := by
+    apply ex_tables w9 rfl rfl 2 5 (by decide) (by decide) (by decide)
+    intro e e' he he' _
+    rw [w9_standIns] at he he'
+    simp only [List.mem_singleton] at he he'
+    rw [he, he']
+  have hself : NoSelfConn w9.g 2 := by
+    intro c hc y hy
+    have hc' : exOwner c = 2 := hc
+    unfold exOwner at hc'
+    have : c = 20 ∨ c = 21 ∨ c = 22 ∨ c = 23 ∨ c = 24 ∨ c = 25 := by split at hc' <;> omega
+    rcases this with rfl | rfl | rfl | rfl | rfl | rfl <;> revert y <;> decide
+  have hm : StandInsOk w9.g (standIns w9 5 2) := by
+    rw [w9_standIns]
+    constructor
+    · intro e e' he he' _
+      simp only [List.mem_singleton] at he he'
+      rw [he, he']
+    · intro e he
+      simp only [List.mem_singleton] at he
+      rw [he]; decide
+  have hsib : SiblingsApart w9 0 2 5 := by
+    intro e he c hc
+    have he' : e = ("a".toList, 1) ∨ e = ("c".toList, 3) := by
+      have : Tree.popVal (w9.t.children 0) 2 = [("a".toList, 1), ("c".toList, 3)] := by decide
+      rw [this] at he
+      simpa using he
+    rcases he' with rfl | rfl
+    · have : c = 10 ∨ c = 11 ∨ c = 12 := by
+        simp only [w9, mkW, exIO, List.mem_cons, List.not_mem_nil, or_false] at hc; omega
+      rcases this with rfl | rfl | rfl <;> decide
+    · have : c = 30 ∨ c = 31 ∨ c = 32 := by
+        simp only [w9, mkW, exIO, List.mem_cons, List.not_mem_nil, or_false] at hc; omega
+      rcases this with rfl | rfl | rfl <;> decide
+  obtain ⟨h1, h2⟩ := C14_preserves_C12_C13 64 w9 0 2 5 w9_inv t9_wf htab hself hm hsib
+  exact ⟨h1, h2, by decide, by decide, fun _ => ⟨htab, hself, hsib⟩⟩
 
 /-! ### D3 — refused adoption (KF-C13-9; repaired in the tree by `fix: 02da358`) -/
 
@@ -530,6 +717,12 @@ end PwVerif.C14
 
 #print axioms PwVerif.C14.C14_replace_atomic
 #print axioms PwVerif.C14.C14_wf_replace_atomic
+#print axioms PwVerif.C14.C14_wf_io_survives
+#print axioms PwVerif.C14.C14_head_replace_atomic
+#print axioms PwVerif.C14.C14_head_inherits
+#print axioms PwVerif.C14.C14_preserves_C12_C13
+#print axioms PwVerif.C14.C14_replace_by_label_atomic
+#print axioms PwVerif.C14.C14_caches_dropped
 #print axioms PwVerif.C14.C14_copy_io_atomic
 #print axioms PwVerif.C14.C14_copy_io_hard_structure
 #print axioms PwVerif.C14.C14_copy_io_hard_atomic
